@@ -26,3 +26,25 @@ func MustParse(src string) *rt.Term {
 	parseCache[src] = t
 	return t
 }
+
+// AnonErrorContexts renames the variable in the context position of every error(F, Ctx) subterm to
+// an anonymous id (>= 1000), so that it is not part of the compared answer.
+func AnonErrorContexts(t *rt.Term) *rt.Term {
+	n := int64(1000)
+	var rec func(t *rt.Term) *rt.Term
+	rec = func(t *rt.Term) *rt.Term {
+		if t.K != rt.Comp {
+			return t
+		}
+		args := make([]*rt.Term, len(t.A))
+		for i, a := range t.A {
+			args[i] = rec(a)
+		}
+		if t.S == "error" && len(args) == 2 && args[1].K == rt.Var {
+			n++
+			args[1] = rt.V(n)
+		}
+		return rt.C(t.S, args...)
+	}
+	return rec(t)
+}
